@@ -269,6 +269,18 @@ def run_main(pid, tier):
     for ln in known_lines:
         print(ln)
 
+    # replay tier: saved minimal inputs of defects that were repaired (regress/<pid>/*.json) and of seeded changes.
+    # They pass on a correct tree; a failure here is a regression and is reported with the saved file as replay.
+    regress_dir = os.path.join(ROOT, "regress", pid)
+    regress_files = sorted(os.listdir(regress_dir)) if os.path.isdir(regress_dir) else []
+    regress_violations, regress_run = [], 0
+    for fn in regress_files:
+        with open(os.path.join(regress_dir, fn)) as f:
+            rc = json.load(f)["case"]
+        res = run_check_guarded(mod, rc)
+        regress_run += 1
+        if res.kind == "violation" and match_known(mod, rc, res, [e["id"] for e in open_findings(pid)]) is None:
+            regress_violations.append((os.path.join("regress", pid, fn), res))
     W = int(os.environ.get("VERIF_WORKERS", str(mod.BUDGET[tier].get("workers", 16))))
     tmpdir = os.path.join(ROOT, ".run", f"{pid}-{tier}-{os.getpid()}")
     os.makedirs(tmpdir, exist_ok=True)
@@ -330,6 +342,7 @@ def run_main(pid, tier):
         "classes": dict(sorted(classes.items())), "excluded_known": dict(known_hits),
         "workers": len(results),
     }
+    coverage["regression_inputs_replayed"] = regress_run
     if cells:
         total = len(mod.cells(tier))
         coverage["cells_total"] = total
@@ -341,7 +354,7 @@ def run_main(pid, tier):
     evidence = {
         "property_id": pid, "tier": tier, "seed": seed, "level": mod.LEVEL, "coverage": coverage,
         "assumptions": getattr(mod, "ASSUMPTIONS", []), "wall_s": round(wall, 2),
-        "violations": len(vio_lines),
+        "violations": len(vio_lines) + len(regress_violations),
     }
     # runs against a mutated scratch copy (sensitivity experiments) must not overwrite the real evidence
     evdir = "evidence" if os.path.realpath(os.environ.get("VERIF_REPO", "/repo")) == "/repo" else ".scratch-evidence"
@@ -352,6 +365,11 @@ def run_main(pid, tier):
     print(f"{pid} {tier} seed={seed}: evaluations={ev} distinct_nontrivial={len(nontrivial)} "
           f"discarded={sum(discard.values())} inconclusive={sum(inconcl.values())} "
           f"known_excluded={sum(known_hits.values())} wall={wall:.1f}s")
+    for path, res in regress_violations:
+        print(f"VIOLATION property={pid} replay={path}")
+        print(f"  (saved regression input) bucket={res.label} detail={str(res.detail)[:400]}")
+    if regress_violations and not vio_lines:
+        return 1
     if vio_lines:
         for path, v in vio_lines:
             print(f"VIOLATION property={pid} replay={path}")
